@@ -592,7 +592,9 @@ class IGen(Gen):
         if r < 0.16:
             c = self.dispatch()
             if c is not None:
-                return c
+                # inside an implementation a dispatched call may come back to it: only under an opaque test
+                # (the recursion then ends with the oracle)
+                return ("if", ("opaque",), c, ("skip",)) if fd.get("impl") else c
         if r < 0.30:
             # assignment to an interface variable: conversion, nil or copy
             ivs = [(L(n), t) for n, t in fd["ltypes"].items()]
@@ -1263,7 +1265,7 @@ def run_suite(ctx, cases, styles_seed=0, nb=None):
     if nb is not None:
         NB = nb
     try:
-        for _ in range(6):
+        for _ in range(25):
             r = _run_suite(ctx, cases, styles_seed)
             if "error" in r and r["error"].startswith("UNBOUNDED-RECURSION "):
                 # drop the program that never terminates (in place: the callers iterate over the same list)
